@@ -1,6 +1,7 @@
 import Ptn.C04.Model
 import Ptn.C04.TreeModel
 import Ptn.C05.HeffModel
+import Ptn.Common.EinsumDriver
 /-! Line-protocol handler for C04 (core Lean only).
 
 A node is written `<parent|->/<child,child,…|->`; identifiers are natural numbers; an identifier
@@ -106,6 +107,8 @@ def parseTreeCase (root : String) (entries : List String) : Option (Tree × (Nat
 
 def handle (args : List String) : String :=
   match args with
+  | "ein" :: rest => Ptn.Ein.handleEin rest   -- value-level semantics (Ptn/Common/EinsumDriver.lean)
+  | "einrec" :: rest => Ptn.Ein.handleEinRec rest
   | ["detidx", nd, a, b] =>
     match parseNode nd, a.toNat?, b.toNat? with
     | some nd, some a, some b =>
